@@ -4,6 +4,7 @@ import (
 	"encoding/json"
 	"flag"
 	"fmt"
+	"github.com/go-openapi/validate"
 	"os"
 	"runtime"
 	"runtime/debug"
@@ -20,6 +21,7 @@ func die2(format string, a ...any) {
 }
 
 func main() {
+	validate.VerifInit()        // snapshot of the package's initial state (after its init functions, before any use)
 	debug.SetMaxStack(48 << 20) // runaway recursion (e.g. a validator that ends up containing itself) fails fast
 	if len(os.Args) < 2 {
 		die2("usage: sim worker|check|replay|gen|detlog ...")
